@@ -101,7 +101,12 @@ def run_join(L, R, lk_idx, rk_idx, kind, expect, variant):
     lon, lcols = key_args(L, lk_idx, variant)
     ron, rcols = key_args(R, rk_idx, variant)
     before = (table_view(L.table), table_view(R.table))
-    st, res, err = outcome_of(lambda: getattr(L.table, JOIN_METHOD[kind])(R.table, left_on=lon, right_on=ron, expect=expect))
+    default = {"inner": "many_to_one", "left": "many_to_one", "full": "many_to_many"}[kind]
+    if expect == default and variant % 2 == 0:
+        # the documented default of each join, left unsaid (and the keys handed over positionally)
+        st, res, err = outcome_of(lambda: getattr(L.table, JOIN_METHOD[kind])(R.table, lon, ron))
+    else:
+        st, res, err = outcome_of(lambda: getattr(L.table, JOIN_METHOD[kind])(R.table, left_on=lon, right_on=ron, expect=expect))
     after = (table_view(L.table), table_view(R.table))
     pre = st == "err" and err == "SerifTypeError" and kinds_mismatch(lcols, rcols)
     return st, res, err, views_equal(before, after), pre
@@ -138,6 +143,11 @@ def replay_join(cases_path, out_path):
         rnames = [("k%d" if same_names else "r%d") % (i + 1) for i in range(nk)] + [rpay]
         L = Side(lrows, nk + 2, [tag if tag != "x" else "xl"] * nk + ["int", "str"], [pal] * nk + [0, 0], lnames)
         R = Side(rrows, nk + 1, [tag if tag != "x" else "xr"] * nk + ["int"], [pal] * nk + [0], rnames)
+        if (n // 11) % 4 == 0:
+            # a right table that consists of its key columns only: a matched right row may then be None in EVERY column
+            rrows = [list(k) for k in c["rk"]]
+            rnames = rnames[:nk]
+            R = Side(rrows, nk, [tag if tag != "x" else "xr"] * nk, [pal] * nk, rnames)
         expect = c["expect"]
         if expect == "bogus":
             # "any other expect value is always rejected": every spelling that is not one of the four words
@@ -158,6 +168,9 @@ def replay_join(cases_path, out_path):
             continue
         if st != "ok":
             fail("cardinality" if err == "SerifValueError" else "rows_" + c["kind"], c, "raised " + str(err), "a table", info)
+            if err == "SerifValueError":
+                # a refusal although the expectation holds is also a result without any of the rows it must contain
+                fail("rows_" + c["kind"], c, "raised " + str(err) + " (no rows at all)", "the rows of the join", info)
             continue
         exp_rows = [(L.concrete_row(p[0] - 1) if p[0] else [None] * L.width) +
                     (R.concrete_row(p[1] - 1) if p[1] else [None] * R.width) for p in c["pairs"]]
